@@ -157,6 +157,8 @@ def assume_type(v, st, world=None):
     st.assume(v.t != NONE)
   if k in ('list', 'vtuple'):
     st.assume(st.heap.len(v.t) >= 0)
+  if k in KIND_CODE or k in ('obj', 'callable'):
+    st.assume(kindof(v.t) == KIND_CODE.get(k, 0))
   if k == 'obj':
     st.assume(subcls(typeof(v.t), cls_const(v.ty.name)))
 
@@ -177,7 +179,7 @@ def truthy(v, st):
     return z3.BoolVal(len(v.items) > 0)
   if isinstance(v, VSetExpr):
     x = fresh('w', U)
-    return z3.Exists([x], v.pred(x))
+    return ExistsT([x], v.pred(x))
   if isinstance(v, (VFunc, VGlobal, VBuiltin, VBound)):
     return z3.BoolVal(True)
   if isinstance(v, VRef):
@@ -188,7 +190,7 @@ def truthy(v, st):
       return st.heap.len(v.t) > 0
     if k == 'dict':
       x = z3.Const(fresh_name('k'), U)
-      return z3.Exists([x], st.heap.dom(v.t, x))
+      return ExistsT([x], st.heap.dom(v.t, x))
     if k in ('obj', 'callable'):
       return z3.BoolVal(True)
     if k == 'opt':
@@ -200,7 +202,7 @@ def truthy(v, st):
 
 def set_nonempty(s, st):
   x = z3.Const(fresh_name('e'), U)
-  return z3.Exists([x], st.heap.mem(s, x))
+  return ExistsT([x], st.heap.mem(s, x))
 
 
 def as_setpred(v, st):
@@ -218,17 +220,16 @@ def as_setpred(v, st):
     if k == 'dict':
       return lambda e: heap.dom(v.t, e)
     if k in ('list', 'vtuple'):
-      def pred(e):
-        i = z3.Const(fresh_name('i'), I)
-        return z3.Exists([i], z3.And(i >= 0, i < heap.len(v.t), heap.item(v.t, i) == e))
-      return pred
+      # list membership is the heap component lmem (kept consistent with len/item by the list
+      # primitives below), so `x in l` needs no index quantifier
+      return lambda e: heap.lmem(v.t, e)
   raise Unsupported('not set-like: %r' % (v,))
 
 
 def seteq_formula(a, b, st):
   pa, pb = as_setpred(a, st), as_setpred(b, st)
   x = z3.Const(fresh_name('x'), U)
-  return z3.ForAll([x], pa(x) == pb(x))
+  return ForAllT([x], pa(x) == pb(x))
 
 
 def values_equal(a, b, st, world=None):
@@ -271,7 +272,7 @@ def values_equal(a, b, st, world=None):
       i = z3.Const(fresh_name('i'), I)
       h = st.heap
       return z3.And(h.len(a.t) == h.len(b.t),
-                    z3.ForAll([i], z3.Implies(z3.And(i >= 0, i < h.len(a.t)),
+                    ForAllT([i], z3.Implies(z3.And(i >= 0, i < h.len(a.t)),
                                               h.item(a.t, i) == h.item(b.t, i))))
     # unknown types: reflexive uninterpreted equality
     return z3.Or(a.t == b.t, py_eq(a.t, b.t))
@@ -302,12 +303,19 @@ def identical(a, b, st):
 
 # ------------------------------------------------------------- allocation / containers
 
-def alloc_obj(st, ty, hint='o'):
+_KIND_CLS = {'set': 'set', 'list': 'list', 'dict': 'dict', 'vtuple': 'tuple'}
+
+
+def alloc_obj(st, ty, hint='o', cls_name=None):
   """Fresh heap object distinct from everything allocated so far."""
   t = fresh(hint, U)
   h = st.heap
   st.assume(z3.Not(h.alloc(t)))
   st.assume(t != NONE)
+  st.assume(kindof(t) == KIND_CODE.get(ty.kind, 0))
+  cn = cls_name or (ty.name if ty.kind == 'obj' else _KIND_CLS.get(ty.kind))
+  if cn:
+    st.assume(typeof(t) == cls_const(cn))
   old = h.get('alloc')
   st.heap = h.with_('alloc', lambda o: z3.Or(o == t, old(o)))
   return VRef(t, ty)
@@ -320,8 +328,8 @@ def note_alloc(v, st):
   return v
 
 
-def new_set(st, pred, ty=None):
-  r = alloc_obj(st, ty or Ty('set', (ANY,)), 'set')
+def new_set(st, pred, ty=None, cls_name=None):
+  r = alloc_obj(st, ty or Ty('set', (ANY,)), 'set', cls_name)
   old = st.heap.get('mem')
   st.heap = st.heap.with_('mem', upd2(old, r.t, pred))
   return r
@@ -336,6 +344,9 @@ def set_update(st, s, fn):
 def new_list(st, items_u, ty=None):
   r = alloc_obj(st, ty or Ty('list', (ANY,)), 'list')
   oldlen, olditem = st.heap.get('len'), st.heap.get('item')
+  oldl = st.heap.get('lmem')
+  st.heap = st.heap.with_('lmem', upd2(oldl, r.t, lambda e: z3.Or([e == u for u in items_u]) if items_u
+                                       else z3.BoolVal(False)))
   n = len(items_u)
 
   def item(l, i):
@@ -347,10 +358,17 @@ def new_list(st, items_u, ty=None):
   return r
 
 
-def new_list_sym(st, length, itemfn, ty=None):
+def new_list_sym(st, length, itemfn, ty=None, mempred=None):
   """Fresh list with symbolic length and element function (i -> U term)."""
   r = alloc_obj(st, ty or Ty('list', (ANY,)), 'list')
   oldlen, olditem = st.heap.get('len'), st.heap.get('item')
+  oldl = st.heap.get('lmem')
+  if mempred is None:
+    P = ufn(fresh_name('lmemof'), U, B)
+    i = z3.Const(fresh_name('li'), I)
+    st.assume(ForAllT([i], z3.Implies(z3.And(i >= 0, i < length), P(itemfn(i)))))
+    mempred = lambda e: P(e)
+  st.heap = st.heap.with_('lmem', upd2(oldl, r.t, mempred))
   st.heap = st.heap.with_('len', upd1(oldlen, r.t, length)).with_(
       'item', lambda l, i: z3.If(l == r.t, itemfn(i), olditem(l, i)))
   return r
@@ -386,14 +404,29 @@ def dict_del(st, d, k):
 
 def list_append(st, l, u):
   oldlen, olditem = st.heap.get('len'), st.heap.get('item')
+  oldl = st.heap.get('lmem')
+  st.heap = st.heap.with_('lmem', lambda x, e: z3.If(x == l, z3.Or(e == u, oldl(x, e)), oldl(x, e)))
   n = oldlen(l)
   st.heap = st.heap.with_('len', upd1(oldlen, l, n + 1)).with_(
       'item', lambda x, i: z3.If(z3.And(x == l, i == n), u, olditem(x, i)))
 
 
+def _lmem_after_removal(st, l, removed):
+  """Membership after removing one occurrence of `removed`: everything else stays, nothing appears."""
+  oldl = st.heap.get('lmem')
+  P = ufn(fresh_name('lmemrest'), U, B)
+  e = z3.Const(fresh_name('le'), U)
+  st.assume(ForAllT([e], z3.Implies(P(e), oldl(l, e))))
+  st.assume(ForAllT([e], z3.Implies(z3.And(oldl(l, e), e != removed), P(e))))
+  st.assume(oldl(l, removed))
+  st.heap = st.heap.with_('lmem', upd2(oldl, l, lambda x: P(x)))
+
+
 def list_pop_front(st, l):
   oldlen, olditem = st.heap.get('len'), st.heap.get('item')
   first = olditem(l, z3.IntVal(0))
+  _lmem_after_removal(st, l, first)
+  st.assume(z3.Implies(oldlen(l) == 1, z3.Not(st.heap.lmem(l, first))))
   st.heap = st.heap.with_('len', upd1(oldlen, l, oldlen(l) - 1)).with_(
       'item', lambda x, i: z3.If(x == l, olditem(x, i + 1), olditem(x, i)))
   return first
@@ -402,5 +435,36 @@ def list_pop_front(st, l):
 def list_pop_back(st, l):
   oldlen = st.heap.get('len')
   last = st.heap.item(l, oldlen(l) - 1)
+  _lmem_after_removal(st, l, last)
+  st.assume(z3.Implies(oldlen(l) == 1, z3.Not(st.heap.lmem(l, last))))
   st.heap = st.heap.with_('len', upd1(oldlen, l, oldlen(l) - 1))
   return last
+
+
+def heap_wf(st, heap, fields, field_kinds=None, value_kinds=None):
+  """Reachability closure: whatever an allocated object refers to is allocated (true in every
+  reachable Python state).  `fields` = reference-typed field names relevant to the function."""
+  o = z3.Const(fresh_name('wo'), U)
+  e = z3.Const(fresh_name('we'), U)
+  i = z3.Const(fresh_name('wi'), I)
+  st.assume(heap.alloc(NONE))
+  st.assume(ForAllT([o, e], z3.Implies(z3.And(heap.alloc(o), heap.mem(o, e)), heap.alloc(e))))
+  st.assume(ForAllT([o, e], z3.Implies(z3.And(heap.alloc(o), heap.dom(o, e)),
+                                         z3.And(heap.alloc(e), heap.alloc(heap.val(o, e))))))
+  st.assume(ForAllT([o, i], z3.Implies(z3.And(heap.alloc(o), i >= 0, i < heap.len(o)),
+                                         heap.alloc(heap.item(o, i)))))
+  st.assume(ForAllT([o, e], z3.Implies(heap.lmem(o, e), heap.len(o) > 0)))
+  st.assume(ForAllT([o, e], z3.Implies(z3.And(heap.alloc(o), heap.lmem(o, e)), heap.alloc(e))))
+  for f in fields:
+    ff = heap.fld(f, U)
+    st.assume(ForAllT([o], z3.Implies(heap.alloc(o), heap.alloc(ff(o)))))
+    k = (field_kinds or {}).get(f)
+    if k is not None:
+      # declared container kind of the field (sets, dicts and lists are disjoint kinds of object)
+      # (fields declared with a container type are never None; possibly-None fields are declared Opt[...])
+      st.assume(ForAllT([o], kindof(ff(o)) == k) if k else z3.BoolVal(True))
+    vk = (value_kinds or {}).get(f)
+    if vk:
+      # declared value type of a dict-valued field: its values are containers of that kind
+      st.assume(z3.ForAll([o, e], kindof(heap.val(ff(o), e)) == vk))
+  st.assume(kindof(NONE) == 0)
